@@ -127,25 +127,10 @@ func New(
 		switch key {
 		case 0x0F: /* ^O, silence output for a bit. */
 			verifAt("key")
-			defer verifAt("mute:done")
-			verifAt("mute:lock")
-			s.wL.Lock()
-			defer s.wL.Unlock()
-			verifAt("mute:body")
-			/* Don't double-pause. */
-			if s.silenced {
-				go s.Logf(ColorRed, false, "Already muted")
-				return
-			}
-			/* Pause output for a bit. */
-			s.silenced = true
-			s.resetSilenceTimer(true)
-			go s.Logf(
-				ColorRed,
-				false,
-				"Muting until we get %s of calm",
-				PlainWritePause,
-			)
+			/* We're called with the terminal's lock held, so
+			taking s.wL here would deadlock against a writer
+			holding s.wL and waiting to write to the terminal. */
+			go s.silence()
 		case 0x09: /* ^I, paste from file. */
 			go s.insert()
 		case 0x0a: /* ^J, like ^I but just locally. */
@@ -389,6 +374,29 @@ func logf(
 // CLine with CLine.Prompt set.  Don't forget a trailing space.
 // Use s.WrapIncolor to color the prompt.
 func (s *Shell) SetPrompt(prompt string) { s.t.SetPrompt(prompt) }
+
+// silence handles Ctrl+O: it silences plain output for a bit.
+func (s *Shell) silence() {
+	defer verifAt("mute:done")
+	verifAt("mute:lock")
+	s.wL.Lock()
+	defer s.wL.Unlock()
+	verifAt("mute:body")
+	/* Don't double-pause. */
+	if s.silenced {
+		go s.Logf(ColorRed, false, "Already muted")
+		return
+	}
+	/* Pause output for a bit. */
+	s.silenced = true
+	s.resetSilenceTimer(true)
+	go s.Logf(
+		ColorRed,
+		false,
+		"Muting until we get %s of calm",
+		PlainWritePause,
+	)
+}
 
 // resetSilenceTimer resets the silenceTimer to fire PlainWritePause after
 // s.lastPlainWrite.
